@@ -8,4 +8,11 @@ require (
 	pgregory.net/rapid v1.3.0
 )
 
+require (
+	github.com/abema/go-mp4 v1.4.1 // indirect
+	github.com/asticode/go-astikit v0.30.0 // indirect
+	github.com/asticode/go-astits v1.13.0 // indirect
+	github.com/google/uuid v1.3.0 // indirect
+)
+
 replace github.com/bluenviron/gohlslib/v2 => /repo
